@@ -14,10 +14,10 @@ import (
 	"time"
 
 	"github.com/cloudwego/dynamicgo/conv"
-	"github.com/cloudwego/dynamicgo/meta"
 	"github.com/cloudwego/dynamicgo/conv/j2t"
 	"github.com/cloudwego/dynamicgo/conv/t2j"
 	dhttp "github.com/cloudwego/dynamicgo/http"
+	"github.com/cloudwego/dynamicgo/meta"
 	"github.com/cloudwego/dynamicgo/thrift"
 
 	"verifharness/gen"
@@ -268,6 +268,7 @@ func c17AnnoList(srcs []hmSrc) []string {
 func runC17(c *h.Ctx) {
 	defer c17WideRoot(c)
 	defer c17RawBodyComplex(c)
+	defer c17TracebackSubdoc(c)
 	defer c17RespOptions(c)
 	c.Run("request", c.N(6000, 200000), func(cs *h.Case) {
 		types := c17Types()
@@ -1535,4 +1536,144 @@ func sortedKeys(m map[string]string) []string {
 	}
 	sort.Strings(ks)
 	return ks
+}
+
+// c17TracebackSubdoc: a struct-typed field supplied by an http source as JSON text (a sub-document). Under
+// ReadHttpValueFallback + TracebackRequredOrRootFields a REQUIRED member that the text leaves out is looked up in
+// the request under its own name (path parameter, query, header, cookie, body root); members that are not
+// required are not. Without a value anywhere: missing-field error, or zero under WriteRequireField.
+func c17TracebackSubdoc(c *h.Ctx) {
+	const idl = `namespace go verif
+struct Inner { 1: required string token, 2: optional i32 n, 3: string plain, 4: required i64 rid }
+struct Req { 1: optional Inner h (api.header="X-In"), 2: optional Inner q (api.query="qin"), 3: optional string other }
+service Svc { Req M(1: Req req) }
+`
+	var desc *thrift.TypeDescriptor
+	c.Run("traceback-subdocument", c.N(600, 12000), func(cs *h.Case) {
+		if desc == nil {
+			svc, err := thrift.NewDescritorFromContent(context.Background(), "tb.thrift", idl, nil, false)
+			if err != nil {
+				cs.Viol("hm:parse-idl", "err", err)
+				return
+			}
+			desc, _ = RootOf(svc, "M")
+		}
+		viaHeader := cs.R.Bool()
+		n := cs.R.Intn(1000)
+		tokInText, ridInText := cs.R.Chance(30), cs.R.Chance(50)
+		tok, rid := "tok"+strconv.Itoa(cs.R.Intn(1000)), int64(cs.R.Intn(1000000))
+		ms := []string{fmt.Sprintf(`"n":%d`, n)}
+		if tokInText {
+			ms = append(ms, `"token":"inner-`+tok+`"`)
+		}
+		if ridInText {
+			ms = append(ms, fmt.Sprintf(`"rid":%d`, rid+1))
+		}
+		text := "{" + strings.Join(ms, ",") + "}"
+		// where the request keeps values under the members' own names (one place each, or nowhere)
+		place := func() string { return []string{"query", "header", "cookie", "param", "body", "none"}[cs.R.Intn(6)] }
+		tokPlace, ridPlace := place(), place()
+		q := url.Values{}
+		hdr := map[string]string{}
+		var cookies []*stdhttp.Cookie
+		var params []dhttp.Param
+		body := map[string]string{}
+		put := func(where, k, v string, quote bool) {
+			switch where {
+			case "query":
+				q.Set(k, v)
+			case "header":
+				hdr[k] = v
+			case "cookie":
+				cookies = append(cookies, &stdhttp.Cookie{Name: k, Value: v})
+			case "param":
+				params = append(params, dhttp.Param{Key: k, Value: v})
+			case "body":
+				if quote {
+					v = strconv.Quote(v)
+				}
+				body[k] = v
+			}
+		}
+		put(tokPlace, "token", tok, true)
+		put(ridPlace, "rid", strconv.FormatInt(rid, 10), false)
+		q.Set("plain", "never-used") // not required: a sub-document's other members are not traced back
+		if !viaHeader {
+			q.Set("qin", text)
+		}
+		var bms []string
+		for _, k := range sortedKeys(body) {
+			bms = append(bms, fmt.Sprintf("%q:%s", k, body[k]))
+		}
+		data := "{" + strings.Join(bms, ",") + "}"
+		sr, _ := stdhttp.NewRequest("POST", "http://verif.example/t?"+q.Encode(), bytes.NewReader([]byte(data)))
+		sr.Header.Set("Content-Type", "application/json")
+		if viaHeader {
+			sr.Header.Set("X-In", text)
+		}
+		for k, v := range hdr {
+			sr.Header.Set(k, v)
+		}
+		for _, ck := range cookies {
+			sr.AddCookie(ck)
+		}
+		req, err := dhttp.NewHTTPRequestFromStdReq(sr, params...)
+		if err != nil {
+			cs.Viol("hm:request-build", "err", err)
+			return
+		}
+		o := conv.Options{EnableHttpMapping: true, ReadHttpValueFallback: true, TracebackRequredOrRootFields: cs.R.Chance(75), WriteRequireField: cs.R.Bool()}
+		cs.Info("request", fmt.Sprintf("text=%s via-header=%v token@%s rid@%s body=%s opts=%+v", text, viaHeader, tokPlace, ridPlace, data, o))
+		// expectation
+		inner := tref.Struct()
+		missing := false
+		if tokInText {
+			inner.Fs = append(inner.Fs, tref.Field{ID: 1, V: tref.Str("inner-" + tok)})
+		} else if o.TracebackRequredOrRootFields && tokPlace != "none" {
+			inner.Fs = append(inner.Fs, tref.Field{ID: 1, V: tref.Str(tok)})
+		} else if o.WriteRequireField {
+			inner.Fs = append(inner.Fs, tref.Field{ID: 1, V: tref.Str("")})
+		} else {
+			missing = true
+		}
+		inner.Fs = append(inner.Fs, tref.Field{ID: 2, V: tref.Int32(int32(n))})
+		if ridInText {
+			inner.Fs = append(inner.Fs, tref.Field{ID: 4, V: tref.Int64(rid + 1)})
+		} else if o.TracebackRequredOrRootFields && ridPlace != "none" {
+			inner.Fs = append(inner.Fs, tref.Field{ID: 4, V: tref.Int64(rid)})
+		} else if o.WriteRequireField {
+			inner.Fs = append(inner.Fs, tref.Field{ID: 4, V: tref.Int64(0)})
+		} else {
+			missing = true
+		}
+		id := int16(2)
+		if viaHeader {
+			id = 1
+		}
+		want := tref.Struct(tref.Field{ID: id, V: inner})
+		ctx := context.WithValue(context.Background(), conv.CtxKeyHTTPRequest, req)
+		cv := j2t.NewBinaryConv(o)
+		out, err := cv.Do(ctx, desc, []byte(data))
+		if missing {
+			if err == nil {
+				cs.Viol("hm:traceback-subdoc:missing-required-accepted", "out", out)
+			} else {
+				cs.Cover("traceback_subdoc_missing_required_rejected")
+			}
+			return
+		}
+		if err != nil {
+			cs.Viol("hm:traceback-subdoc:error-on-domain", "err", err)
+			return
+		}
+		got, derr := tref.Decode(out, tref.STRUCT)
+		if derr != nil || !tref.EqualUnordered(got, want) {
+			cs.Viol("hm:traceback-subdoc:value", "got", fmt.Sprint(got), "want", want.String(), "decode-error", derr)
+			return
+		}
+		cs.Cover("traceback_subdoc_ok")
+		if o.TracebackRequredOrRootFields && ((!tokInText && tokPlace != "none") || (!ridInText && ridPlace != "none")) {
+			cs.Cover("traceback_subdoc_member_filled_from_request")
+		}
+	})
 }
